@@ -114,10 +114,11 @@ def main() -> int:
             broken.append(f"translator section {k}: {v}")
 
     # 2. build theorems + driver
-    ok_props, log_props = lean_build([f"Smpl.Props.{prop}"])
+    mods = common.prop_modules(prop)
+    ok_props, log_props = lean_build(mods)
     if not ok_props:
         errs = [l for l in log_props.splitlines() if l.startswith("error")][:8]
-        broken.append("lake build Smpl.Props.%s failed: %s" % (prop, " | ".join(errs)))
+        broken.append("lake build %s failed: %s" % (" ".join(mods), " | ".join(errs)))
     ok_drv, log_drv = lean_build(["driver"])
     if not ok_drv:
         ctx.model_available = False
@@ -138,7 +139,7 @@ def main() -> int:
         axioms_seen = au["axioms"]
         if tier == "thorough":
             with common.BuildLock():
-                rc, out = common.lake(["env", "leanchecker", f"Smpl.Props.{prop}"], timeout=3000)
+                rc, out = common.lake(["env", "leanchecker"] + mods, timeout=3000)
             notes.append(f"leanchecker rc={rc}")
             if rc != 0:
                 broken.append("leanchecker rejected Smpl.Props.%s: %s" % (prop, out[-500:]))
@@ -210,8 +211,8 @@ def main() -> int:
         "coverage": {
             "obligations": n_obl,
             "discharged": discharged,
-            "checker_cmd": f"cd lean && lake build Smpl.Props.{prop} && lake env lean Smpl/Audit/{prop}.lean"
-            + (f" && lake env leanchecker Smpl.Props.{prop}" if tier == "thorough" else ""),
+            "checker_cmd": f"cd lean && lake build {' '.join(common.prop_modules(prop))} && lake env lean Smpl/Audit/{prop}.lean"
+            + (f" && lake env leanchecker {' '.join(common.prop_modules(prop))}" if tier == "thorough" else ""),
             "trusted_base": TRUSTED_BASE + getattr(mod, "EXTRA_TRUST", []),
             "theorems": names,
             "axioms": axioms_seen,
